@@ -314,3 +314,15 @@ pub open spec fn v1_bin_res_incomplete(r: Result<V1Header, V1BinError>) -> bool 
 pub open spec fn c18_condition(s: Seq<u8>) -> bool {
     v1_terminated(s) || (first_index_of(s, 13u8) >= s.len() && s.len() >= 107)
 }
+
+/// projections of `realises` / `addr_post` by property
+pub open spec fn kind_incomplete_agrees(r_err: Option<V1Error>, k: Option<V1K>) -> bool {
+    // the result is an incomplete error exactly when the verdict is, and then of the same kind
+    ((r_err matches Some(e) && v1_err_incomplete(e)) <==> (k matches Some(kk) && v1k_incomplete(kk)))
+    && ((r_err is Some && v1_err_incomplete(r_err->Some_0)) ==> (k is Some && v1_kind(r_err->Some_0) == k->Some_0))
+}
+pub open spec fn kind_terminal_agrees(r_err: Option<V1Error>, k: Option<V1K>) -> bool {
+    (r_err is Some && !v1_err_incomplete(r_err->Some_0)) ==> (k is Some && v1_kind(r_err->Some_0) == k->Some_0)
+}
+pub open spec fn res_err<T>(r: Result<T, V1Error>) -> Option<V1Error> { match r { Ok(_) => None, Err(e) => Some(e) } }
+pub open spec fn verdict_kind(v: V1V) -> Option<V1K> { match v { V1V::Accept(_) => None, V1V::Reject(k) => Some(k) } }
